@@ -359,7 +359,9 @@ pub fn c03_strategy(max_len: usize, transports: BoxedStrategy<Transport>) -> Box
             let followers = if upgrade { 0 } else { followers };
             let conn = if upgrade { Some(["upgrade", "Upgrade", "keep-alive, Upgrade", "Upgrade, keep-alive", "upgrade,keep-alive", "UPGRADE", "foo , upgrade"][(mask as usize >> 20) % 7].to_string()) } else { keepalive_for(version, followers == 0) };
             let mut conv = Conversation::default();
-            conv.reqs.push(build_req(0, "POST".into(), "/body".into(), version, headers, framing, also_cl, mask as usize, mask, conn, false));
+            // (now and then the body is announced with an expectation the client does not wait on)
+            let expect = !upgrade && (mask >> 29) % 5 == 0;
+            conv.reqs.push(build_req(0, "POST".into(), "/body".into(), version, headers, framing, also_cl, mask as usize, mask, conn, expect));
             for i in 0..followers {
                 conv.reqs.push(sentinel(1 + i as u32));
             }
@@ -829,7 +831,10 @@ pub fn c06_strategy(transports: BoxedStrategy<Transport>, with_panic: bool) -> B
                 let read = if matches!(framing, Framing::Chunked { .. }) { ReadPlan::ToEof { buf: 2048, extra: 0 } } else { read };
                 let (method, framing, finish) = if head && matches!(finish, Finish::Respond { .. } | Finish::Drop | Finish::Panic) { ("HEAD".to_string(), Framing::None, finish) } else { ("POST".to_string(), framing, finish) };
                 let read = if method == "HEAD" { ReadPlan::None } else { read };
-                conv.reqs.push(build_req(i as u32, method, "/x".into(), "HTTP/1.1", vec![Hdr::new("Host", "h")], framing, None, 1, mask, None, false));
+                // (an HTTP/1.0 client that keeps its connection alive is answered like any other)
+                let v10 = (mask >> 24) % 5 == 0 && !matches!(framing, Framing::Chunked { .. });
+                let (version, conn) = if v10 { ("HTTP/1.0", Some("keep-alive".to_string())) } else { ("HTTP/1.1", None) };
+                conv.reqs.push(build_req(i as u32, method, "/x".into(), version, vec![Hdr::new("Host", "h")], framing, None, 1, mask, conn, false));
                 progs.push(Prog { read, finish });
             }
             let total = total_len(&conv);
